@@ -18,8 +18,8 @@ def plan(tier):
     pl = Plan()
     pl.level = "other"
     for c in arglayer.builtin_classes():
-        for v in ("all", "none", "lists"):
-            pl.units.append(U("S.%s.%s" % (c, v), "contracts.serializer", "h_tosieve", (c, v)))
+        for v in ("all", "none", "lists", "multiline"):
+            pl.units.append(U("S.%s.%s" % (c, v), "contracts.serializer", "h_tosieve", (c, v), native_ok=True, sample_models=True))
     pl.bounded = [bounded_roundtrip]
     pl.functions = [("sievelib.commands", "Command.tosieve"), ("sievelib.commands", "Command.__print"),
                     ("sievelib.commands", "Command.__get_arg_type"), ("sievelib.commands", "Command.has_arguments")]
